@@ -281,6 +281,12 @@ func checkPass(run *kit.Run, c cfg, oc optCache, suffix string) {
 					got = serve("PUT", pth(0))
 				case "redirect":
 					got = serve("GET", pth(0)+"/")
+					// the same redirect for a method that keeps its method (308 instead of 301) runs the same chain
+					if _, err := f.Handle("POST", "/post-only", handler, slash(nil)...); err == nil || f.Has("POST", "/post-only") {
+						if g2 := serve("POST", "/post-only/"); !same(g2, expected(c, k.scope, nil)) {
+							fail("redirect handler for a POST request", g2, expected(c, k.scope, nil))
+						}
+					}
 				case "options":
 					got = serve("OPTIONS", pth(0))
 				}
